@@ -99,24 +99,25 @@ class ErrorHandling:
 
         suggestions = []
         if len(expected) == 1:
-            # use only it
+            # use only it, if the parser can really take it here
             first_value = list(expected.keys())[0]
-            suggestions.append(first_value)
+            prefix = self.tokens if error_index is None else self.tokens[:error_index]
+            if self.can_follow(prefix, first_value, expected[first_value]):
+                suggestions.append(first_value)
 
         elif 1 < len(expected) < 20:
             if self.bad_token is None:
-                # if this is the end of query, just show next expected keywords
-                return list(expected.keys())
+                # if this is the end of query, show the next expected keywords that the parser can really take
+                # (the expected tokens of an LALR state are a superset of those)
+                return [
+                    value for value, token_name in expected.items()
+                    if self.can_follow(self.tokens, value, token_name)
+                ]
 
             # not every suggestion satisfy the end of the query. we have to check if it works
             for value, token_name in expected.items():
                 # make up a token
-                token = Token()
-                token.type = token_name
-                token.value = value
-                token.end = 0
-                token.index = 0
-                token.lineno = 0
+                token = self.make_token(value, token_name)
 
                 # try to add token
                 tokens2 = self.tokens[:error_index] + [token] + self.tokens[error_index:]
@@ -131,6 +132,30 @@ class ErrorHandling:
                     continue
 
         return suggestions
+
+    # values for made-up tokens of the placeholder suggestions (grammar actions convert token values)
+    probe_values = {'[identifier]': 'x', '[number]': '0', '[string]': "'x'"}
+
+    def make_token(self, value, token_name):
+        token = Token()
+        token.type = token_name
+        token.value = self.probe_values.get(value, value)
+        token.end = 0
+        token.index = 0
+        token.lineno = 0
+        return token
+
+    def can_follow(self, prefix, value, token_name):
+        # is the token accepted right after the prefix?
+        token = self.make_token(value, token_name)
+        self.parser.error_info = None
+        try:
+            self.parser.parse(iter(prefix + [token]))
+        except Exception:
+            # a grammar action complains about the incomplete statement: can't tell
+            return True
+        error_info = getattr(self.parser, 'error_info', None)
+        return not (error_info is not None and error_info.get('bad_token') is token)
 
     def query_is_valid(self, tokens):
         # try to parse list of tokens
